@@ -44,13 +44,21 @@ def reachable_ids(cfg):
     return ids
 
 
+IMPORT_LINE = "%import ZConfig.components.basic\n"
+
+
 def compare(ast, sm, schema, text, rng=None):
     ZConfig = loadcheck.zc()
+    prelude = ""
+    if text.startswith(IMPORT_LINE):
+        # a component that ships with the library, whose types the text does not use: the handler
+        # entries are those of the text without the line
+        prelude, text = IMPORT_LINE, text[len(IMPORT_LINE):]
     ref = refload.ref_load(ast, {loadcheck.MAIN: text}, loadcheck.MAIN, sm=sm)
     out = []
     if ref.kind != "accept":
         return ref, out
-    got = loadcheck.real_load(schema, text)
+    got = loadcheck.real_load(schema, prelude + text)
     if got[0] != "ok":
         return ref, None
     cfg, handler = got[1], got[2]
@@ -347,7 +355,10 @@ def run_shard(spec):
         res.evaluations += 1
         for sig, d in check_sequence(schema, texts, all_handler_names(ast)):
             res.fail(sig, {"schema": ast, "texts": texts}, d)
-        for text in texts:
+        for k_, text in enumerate(texts):
+            if (i + k_) % 4 == 0 and "%import" not in text:
+                text = IMPORT_LINE + text
+                counters["texts-with-%import"] += 1
             ref, fl = compare(ast, sm, schema, text)
             if ref.kind != "accept" or fl is None:
                 counters["skipped"] += 1
